@@ -129,8 +129,25 @@ class C08:
             l = os.path.join(root, "link0")
             os.symlink(rng.choice(dirs), l)
             links.append(l)
-        pool = dirs + links + [os.path.join(root, "missing"), "bin", ".", "", os.path.join(work, "bin")]
+        dotdot = []
+        if rng.random() < 0.6:
+            # `..` behind a symlinked component: the directory execvp searches is the PHYSICAL parent's child, which a purely
+            # lexical normalisation of the entry misses (a decoy directory sits at the lexical place in half of the layouts)
+            deep = os.path.join(root, "deep", "inner")
+            os.makedirs(deep)
+            phys = os.path.join(root, "deep", "sib")
+            os.makedirs(phys)
+            dirs.append(phys)
+            if rng.random() < 0.5:
+                decoy = os.path.join(root, "sib")
+                os.makedirs(decoy)
+                dirs.append(decoy)
+            os.symlink(deep, os.path.join(root, "jump"))
+            dotdot.append(os.path.join(root, "jump", "..", "sib"))
+        pool = dirs + links + dotdot + dotdot + [os.path.join(root, "missing"), "bin", ".", "", os.path.join(work, "bin")]
         path = [rng.choice(pool) for _ in range(rng.randint(1, 6))]
+        if dotdot and rng.random() < 0.5:
+            path.insert(rng.randrange(len(path) + 1), dotdot[0])
         for d in dirs + [os.path.join(work, "bin"), work]:
             for n in NAMES:
                 k = rng.random()
@@ -158,6 +175,8 @@ class C08:
         trace = []
         good_paths = None
         chmod_since_good = False
+        chmod_dirs = set()  # directories in which a mode changed since the cache last re-listed them
+        latent_path_edit = True  # $PATH / cwd changed since the merged map was last certainly rebuilt
         for step in range(case["steps"] + 1):
             op = "initial"
             changed = None
@@ -231,7 +250,11 @@ class C08:
             trace.append(op)
             if op == "chmod":
                 chmod_since_good = True
+                chmod_dirs.add(os.path.realpath(d))
+            elif op.startswith("path-") or op == "cd":
+                latent_path_edit = True
             step_cache_ok = True
+            step_had_stale = False
             rec.count("op_" + op)
             cwd = os.getcwd()
             entries = [str(x) for x in env["PATH"]]
@@ -249,25 +272,31 @@ class C08:
                 if ndirs_with >= 2:
                     rec.count("name_in_several_dirs_steps")
                 rec.case(nontrivial=(tuple(sorted(entries)), op, n, exp is not None, ndirs_with) if (ndirs_with >= 2 or changed == n) else None)
-                views = {}
-                try:
-                    views["locate_executable"] = E.locate_executable(n)
-                    views["locate_binary"] = cc.locate_binary(n, ignore_alias=True)
-                    views["name-in-commands_cache"] = n in cc
-                    if allc is None:
-                        allc = set(cc.all_commands)
-                    views["all_commands"] = n in allc
-                except BaseException as x:  # noqa
-                    rec.violation(f"EXCEPTION/{type(x).__name__}", {"rseed": case["rseed"], "steps": case["steps"], "at_step": step}, {"op": op, "name": n, "msg": str(x)[:100]})
-                    return
-                for view, got in views.items():
+                # the views are asked in a random order: whichever is asked first after a change must be right on its own,
+                # not because an earlier question happened to refresh the cache; each answer is judged before the next
+                # question is asked, so the attribution below sees the cache as it was when it answered
+                order = ["locate_executable", "locate_binary", "name-in-commands_cache", "all_commands"]
+                rng.shuffle(order)
+                rec.count("first_view_" + order[0])
+                for view in order:
+                    try:
+                        if view == "locate_executable":
+                            got = E.locate_executable(n)
+                        elif view == "locate_binary":
+                            got = cc.locate_binary(n, ignore_alias=True)
+                        elif view == "name-in-commands_cache":
+                            got = n in cc
+                        else:
+                            got = n in set(cc.all_commands)
+                    except BaseException as x:  # noqa
+                        rec.violation(f"EXCEPTION/{type(x).__name__}", {"rseed": case["rseed"], "steps": case["steps"], "at_step": step}, {"op": op, "name": n, "msg": str(x)[:100]})
+                        return
                     rec.count("lookups_compared")
                     if isinstance(got, bool):
                         ok = got == (exp is not None)
-                        gs = got
                     else:
                         ok = (got is None) == (exp is None) and (got is None or os.path.realpath(got) == os.path.realpath(exp))
-                        gs = got
+                    gs = got
                     if ok:
                         continue
                     state = "stale-positive" if (exp is None) else ("stale-negative" if not got else "wrong-file")
@@ -279,7 +308,8 @@ class C08:
                         fv = fresh.locate_binary(n, ignore_alias=True)
                         fresh_ok = (fv is None) == (exp is None) and (fv is None or os.path.realpath(fv) == os.path.realpath(exp))
                         if fresh_ok:
-                            # attribution only (never the verdict): look at what the cache holds per directory
+                            # attribution only (never the verdict): what does the cache hold per directory, and what happened
+                            # since it last answered everything correctly?
                             from xonsh.commands_cache import executables_in
 
                             now_paths = E.get_paths(env)
@@ -290,26 +320,50 @@ class C08:
                                 try:
                                     cur = set(executables_in(dd))
                                     if ent is None:
-                                        unexplained = True  # a $PATH directory the cache never listed
+                                        if not latent_path_edit:
+                                            unexplained = True  # a directory that was on $PATH all along and is not listed
                                     elif set(ent.cmds) != cur:
                                         if ent.mtime == os.path.getmtime(dd):
+                                            # executability changed without touching the directory (chmod, or the target of a
+                                            # symlink appeared / vanished / changed mode): invisible to a cache keyed on the mtime
                                             listing_stale = True
                                         else:
-                                            unexplained = True  # mtime moved on and the listing was still not refreshed
+                                            unexplained = True  # the mtime moved on and the directory was still not re-listed
                                 except OSError:
                                     pass
                             if unexplained:
-                                cause = "unattributed-after-" + op
+                                cause = f"unattributed/{view}/{state}-after-{op}"
                             elif listing_stale:
                                 cause = "mode-change-does-not-change-the-directory-mtime"
-                            else:
+                            elif latent_path_edit:
                                 cause = "merged-map-not-rebuilt-when-only-PATH-changed"
-                            rec.violation(f"STALE/commands_cache/{cause}", {"rseed": case["rseed"], "steps": case["steps"], "at_step": step}, {"view": view, "name": n, "expected": exp, "got": gs, "PATH": entries, "cwd": cwd, "recent_ops": recent})
-                            continue
-                    rec.violation(f"LOOKUP/{view}/{state}/after-{op}", {"rseed": case["rseed"], "steps": case["steps"], "at_step": step}, {"name": n, "expected": exp, "got": gs, "PATH": entries, "cwd": cwd, "recent_ops": recent})
+                            else:
+                                cause = f"unattributed/{view}/{state}-after-{op}"
+                            rec.violation(f"STALE/commands_cache/{cause}", {"rseed": case["rseed"], "steps": case["steps"], "at_step": step}, {"view": view, "name": n, "expected": exp, "got": gs, "PATH": entries, "cwd": cwd, "recent_ops": recent, "asked_first": order[0]})
+                            break  # the later views of this name would only repeat it
+                    else:
+                        rec.violation(f"LOOKUP/{view}/{state}/after-{op}", {"rseed": case["rseed"], "steps": case["steps"], "at_step": step}, {"name": n, "expected": exp, "got": gs, "PATH": entries, "cwd": cwd, "recent_ops": recent})
+                        continue
+                    if not fresh_ok:
+                        rec.violation(f"LOOKUP/{view}/{state}/after-{op}", {"rseed": case["rseed"], "steps": case["steps"], "at_step": step}, {"name": n, "expected": exp, "got": gs, "PATH": entries, "cwd": cwd, "recent_ops": recent})
+                if not step_cache_ok:
+                    # resynchronise at once: one staleness must not be charged to the names that follow in this step
+                    cc = CommandsCache(env, XSH.aliases)
+                    XSH.commands_cache = cc
+                    cc.update_cache()
+                    good_paths = E.get_paths(env)
+                    chmod_since_good = False
+                    chmod_dirs.clear()
+                    latent_path_edit = False
+                    step_cache_ok = True
+                    step_had_stale = True
             if step_cache_ok:
                 good_paths = E.get_paths(env)
                 chmod_since_good = False
+            if op in ("create-exe", "create-nonexe", "delete", "rename", "replace-by-dir", "symlink-to-exe") and os.path.realpath(d) in {os.path.realpath(x) for x in E.get_paths(env)}:
+                # a $PATH directory's mtime moved: the queries of this step made the cache re-list it and rebuild the merged map
+                latent_path_edit = False
+                chmod_dirs.discard(os.path.realpath(d))
             else:
                 # resynchronise xonsh's cache so that one staleness is not re-reported at every later step
                 cc = CommandsCache(env, XSH.aliases)
